@@ -150,6 +150,10 @@ func lerpPts(a, b P2, n int) []P2 {
 
 const curveN = 96
 
+// Béziers may turn tightly: the chord error of an n-step polyline is |B''|/(8 n^2), so they are sampled
+// four times finer than arcs (error < 1e-5 of the viewport for the generated control polygons)
+const bezN = 4 * curveN
+
 func ellipseArcPts(cx, cy, rx, ry, t0, t1 float64, n int) []P2 {
 	out := make([]P2, 0, n)
 	for i := 1; i <= n; i++ {
@@ -418,8 +422,16 @@ func (sd *SpecDoc) walk(n *Node, anc []*Node, st SpecStyle, ctm Aff) {
 		v, _ := attrOf(n, "d")
 		subs = specPath(v.D)
 	}
-	if subs != nil {
-		sd.Shapes = append(sd.Shapes, SpecShape{N: n, Subs: subs, CTM: ctm, St: st})
+	// zero-length subpaths (e.g. <line> with coinciding end points, x2="27.75pt" = 37px = x1) have no
+	// interior and, with butt caps, no stroke area: they paint nothing and are not part of the outline
+	kept := subs[:0:0]
+	for _, sb := range subs {
+		if len(sb.Pts) > 1 && hc.PolylineLen(sb.Pts) > 0 {
+			kept = append(kept, sb)
+		}
+	}
+	if len(kept) > 0 {
+		sd.Shapes = append(sd.Shapes, SpecShape{N: n, Subs: kept, CTM: ctm, St: st})
 	}
 	for _, k := range n.Kids {
 		sd.walk(k, append(anc[:len(anc):len(anc)], n), st, ctm)
@@ -487,8 +499,8 @@ func specPath(d string) []SpecSub {
 			if len(pts) == 0 {
 				pts = []P2{cur}
 			}
-			for k := 1; k <= curveN; k++ {
-				t := float64(k) / curveN
+			for k := 1; k <= bezN; k++ {
+				t := float64(k) / bezN
 				u := 1 - t
 				pts = append(pts, P2{u*u*s.P0.X + 2*u*t*s.P1.X + t*t*s.End.X, u*u*s.P0.Y + 2*u*t*s.P1.Y + t*t*s.End.Y})
 			}
@@ -499,8 +511,8 @@ func specPath(d string) []SpecSub {
 			if len(pts) == 0 {
 				pts = []P2{cur}
 			}
-			for k := 1; k <= curveN; k++ {
-				t := float64(k) / curveN
+			for k := 1; k <= bezN; k++ {
+				t := float64(k) / bezN
 				u := 1 - t
 				b0, b1, b2, b3 := u*u*u, 3*u*u*t, 3*u*t*t, t*t*t
 				pts = append(pts, P2{b0*p0.X + b1*p1.X + b2*p2.X + b3*p3.X, b0*p0.Y + b1*p1.Y + b2*p2.Y + b3*p3.Y})
@@ -712,8 +724,10 @@ func oracle(c *hc.Ctx, d *Doc, svg string, p Parsed) {
 					pl = append(pl, P2{q.X / p.C.W, 1 - q.Y/p.C.H})
 					continue
 				}
-				if sg.Kind == 'A' || sg.Kind == 'Q' || sg.Kind == 'C' {
+				if sg.Kind == 'A' {
 					n = 2 * curveN
+				} else if sg.Kind == 'Q' || sg.Kind == 'C' {
+					n = bezN
 				}
 				for k := 1; k <= n; k++ {
 					u := sg.At(float64(k) / float64(n))
